@@ -14,8 +14,14 @@ established by `utcp_sequence_init` on a fresh connection and preserved by every
 namespace Utcp
 open Gen Size
 
-def ChanOK (x : Channel) : Prop := ∀ n ∈ x.outRec, n.bits.length ≤ 7844
-def AllOK (c : Conn) : Prop := ∀ p ∈ c.chans, ChanOK p.2
+/-- a property of every retransmission record of a channel / of a connection -/
+def ChanOKP (N : OutNode → Prop) (x : Channel) : Prop := ∀ n ∈ x.outRec, N n
+def AllOKP (N : OutNode → Prop) (c : Conn) : Prop := ∀ p ∈ c.chans, ChanOKP N p.2
+
+/-- the instance used here: the record fits into an empty packet -/
+abbrev SizeN : OutNode → Prop := fun n => n.bits.length ≤ 7844
+abbrev ChanOK (x : Channel) : Prop := ChanOKP SizeN x
+abbrev AllOK (c : Conn) : Prop := AllOKP SizeN c
 
 /-- a datagram of the data path has at most `UTCP_MAX_PACKET + 1` bytes -/
 def SizeOK (ev : Event) : Prop := ∀ bytes, ev = .out bytes → bytes.length ≤ 1025
@@ -59,13 +65,13 @@ theorem mem_insertSorted (ch : Nat) (x : Channel) (l : List (Nat × Channel)) (p
           · left; exact h
           · right; exact List.mem_cons_of_mem _ h
 
-theorem setChan_allOK (c : Conn) (ch : Nat) (x : Channel) (h : AllOK c) (hx : ChanOK x) : AllOK (c.setChan ch x) := by
+theorem setChan_allOKP {N : OutNode → Prop} (c : Conn) (ch : Nat) (x : Channel) (h : AllOKP N c) (hx : ChanOKP N x) : AllOKP N (c.setChan ch x) := by
   intro p hp
   rcases mem_insertSorted ch x c.chans p hp with h1 | h1
   · rw [h1]; exact hx
   · exact h p h1
 
-theorem getChan_ok (c : Conn) (ch : Nat) (x : Channel) (h : AllOK c) (hg : c.getChan ch = some x) : ChanOK x := by
+theorem getChan_okP {N : OutNode → Prop} (c : Conn) (ch : Nat) (x : Channel) (h : AllOKP N c) (hg : c.getChan ch = some x) : ChanOKP N x := by
   unfold Conn.getChan at hg
   cases hf : c.chans.find? (·.1 == ch) with
   | none => rw [hf] at hg; simp at hg
@@ -75,8 +81,12 @@ theorem getChan_ok (c : Conn) (ch : Nat) (x : Channel) (h : AllOK c) (hg : c.get
     rw [← hg]
     exact h p (List.mem_of_find?_eq_some hf)
 
-theorem AllOK.of_chans {c c' : Conn} (h : AllOK c) (hc : c'.chans = c.chans) : AllOK c' := by
-  unfold AllOK; rw [hc]; exact h
+theorem AllOKP.of_chans {N : OutNode → Prop} {c c' : Conn} (h : AllOKP N c) (hc : c'.chans = c.chans) : AllOKP N c' := by
+  unfold AllOKP; rw [hc]; exact h
+
+theorem setChan_allOK (c : Conn) (ch : Nat) (x : Channel) (h : AllOK c) (hx : ChanOK x) : AllOK (c.setChan ch x) := setChan_allOKP c ch x h hx
+theorem getChan_ok (c : Conn) (ch : Nat) (x : Channel) (h : AllOK c) (hg : c.getChan ch = some x) : ChanOK x := getChan_okP c ch x h hg
+theorem AllOK.of_chans {c c' : Conn} (h : AllOK c) (hc : c'.chans = c.chans) : AllOK c' := AllOKP.of_chans h hc
 
 /-! ### arithmetic of `GetFreeSendBufferBits` -/
 
@@ -380,17 +390,17 @@ theorem freeNodes_chans (c : Conn) (k : Nat) : (c.freeNodes k).chans = c.chans :
     | cons a rest ih => intro c; exact ih _
   exact this _ _
 
-theorem markClosed_ok (x : Channel) (r : Nat) (h : ChanOK x) : ChanOK (x.markClosed r) := by
+theorem markClosed_okP {N : OutNode → Prop} (x : Channel) (r : Nat) (h : ChanOKP N x) : ChanOKP N (x.markClosed r) := by
   unfold Channel.markClosed; split
   · exact h
   · exact h
 
-theorem noteClose_allOK (c : Conn) (b : Bunch) (h : AllOK c) : AllOK (c.noteClose b) := by
+theorem noteClose_allOKP {N : OutNode → Prop} (c : Conn) (b : Bunch) (h : AllOKP N c) : AllOKP N (c.noteClose b) := by
   unfold Conn.noteClose
   split
   · exact h
   · dsimp only
-    have hc : AllOK (if (b.chIndex == 0) = true then c.markClose crControlChannelClose else c) := by
+    have hc : AllOKP N (if (b.chIndex == 0) = true then c.markClose crControlChannelClose else c) := by
       split
       · exact h.of_chans (markClose_chans _ _)
       · exact h
@@ -398,15 +408,15 @@ theorem noteClose_allOK (c : Conn) (b : Bunch) (h : AllOK c) : AllOK (c.noteClos
     split
     · exact hc
     · rename_i x hx
-      exact (setChan_allOK c' _ _ hc (markClosed_ok x _ (getChan_ok c' _ x hc hx))).of_chans rfl
+      exact (setChan_allOKP c' _ _ hc (markClosed_okP x _ (getChan_okP c' _ x hc hx))).of_chans rfl
 
-theorem foldl_noteClose_allOK (g : List Bunch) : ∀ c : Conn, AllOK c → AllOK (g.foldl Conn.noteClose c) := by
+theorem foldl_noteClose_allOKP {N : OutNode → Prop} (g : List Bunch) : ∀ c : Conn, AllOKP N c → AllOKP N (g.foldl Conn.noteClose c) := by
   induction g with
   | nil => intro c h; exact h
-  | cons b rest ih => intro c h; exact ih _ (noteClose_allOK c b h)
+  | cons b rest ih => intro c h; exact ih _ (noteClose_allOKP c b h)
 
-theorem mergePartial_ok (c : Conn) (x : Channel) (b : Bunch) (h : AllOK c) (hx : ChanOK x) :
-    AllOK (mergePartial c x b).1 ∧ ChanOK (mergePartial c x b).2.1 := by
+theorem mergePartial_okP {N : OutNode → Prop} (c : Conn) (x : Channel) (b : Bunch) (h : AllOKP N c) (hx : ChanOKP N x) :
+    AllOKP N (mergePartial c x b).1 ∧ ChanOKP N (mergePartial c x b).2.1 := by
   unfold mergePartial mergeInitial mergeNext
   split
   · split
@@ -422,23 +432,23 @@ theorem mergePartial_ok (c : Conn) (x : Channel) (b : Bunch) (h : AllOK c) (hx :
         · exact ⟨h, hx⟩
         · exact ⟨h.of_chans (freeNodes_chans _ _), hx⟩
 
-theorem receivedNextBunch_allOK (c : Conn) (b : Bunch) (h : AllOK c) : AllOK (c.receivedNextBunch b).1 := by
+theorem receivedNextBunch_allOKP {N : OutNode → Prop} (c : Conn) (b : Bunch) (h : AllOKP N c) : AllOKP N (c.receivedNextBunch b).1 := by
   unfold Conn.receivedNextBunch
   split
   · exact h.of_chans rfl
   · rename_i x hx
-    have hxo := getChan_ok c _ x h hx
+    have hxo := getChan_okP c _ x h hx
     dsimp only
-    have hx' : ChanOK (if b.bReliable = true then { x with inReliable := b.chSeq } else x) := by
+    have hx' : ChanOKP N (if b.bReliable = true then { x with inReliable := b.chSeq } else x) := by
       split
       · exact hxo
       · exact hxo
     split
-    · have hm := mergePartial_ok c (if b.bReliable = true then { x with inReliable := b.chSeq } else x) b h hx'
+    · have hm := mergePartial_okP c (if b.bReliable = true then { x with inReliable := b.chSeq } else x) b h hx'
       generalize mergePartial c (if b.bReliable = true then { x with inReliable := b.chSeq } else x) b = r at hm
       obtain ⟨c1, x1, res, skip⟩ := r
       simp only at hm ⊢
-      have h1 : AllOK (c1.setChan b.chIndex x1) := setChan_allOK _ _ _ hm.1 hm.2
+      have h1 : AllOKP N (c1.setChan b.chIndex x1) := setChan_allOKP _ _ _ hm.1 hm.2
       cases res with
       | succeed => exact h1
       | fatal => exact h1.of_chans rfl
@@ -446,19 +456,19 @@ theorem receivedNextBunch_allOK (c : Conn) (b : Bunch) (h : AllOK c) : AllOK (c.
       | available =>
         simp only
         split
-        · have h2 : AllOK ((c1.setChan b.chIndex x1).freeNodes x1.inPartial.length) := h1.of_chans (freeNodes_chans _ _)
-          exact (setChan_allOK _ b.chIndex { x1 with inPartial := [] } h2 hm.2).of_chans (markClose_chans _ _)
-        · have h2 : AllOK (x1.inPartial.foldl Conn.noteClose (c1.setChan b.chIndex x1)) := foldl_noteClose_allOK _ _ h1
-          have h3 : AllOK (((x1.inPartial.foldl Conn.noteClose (c1.setChan b.chIndex x1)).emit (.recv x1.inPartial)).freeNodes x1.inPartial.length) :=
-            (h2.of_chans rfl : AllOK ((x1.inPartial.foldl Conn.noteClose (c1.setChan b.chIndex x1)).emit (.recv x1.inPartial))).of_chans (freeNodes_chans _ _)
+        · have h2 : AllOKP N ((c1.setChan b.chIndex x1).freeNodes x1.inPartial.length) := h1.of_chans (freeNodes_chans _ _)
+          exact (setChan_allOKP _ b.chIndex { x1 with inPartial := [] } h2 hm.2).of_chans (markClose_chans _ _)
+        · have h2 : AllOKP N (x1.inPartial.foldl Conn.noteClose (c1.setChan b.chIndex x1)) := foldl_noteClose_allOKP _ _ h1
+          have h3 : AllOKP N (((x1.inPartial.foldl Conn.noteClose (c1.setChan b.chIndex x1)).emit (.recv x1.inPartial)).freeNodes x1.inPartial.length) :=
+            (h2.of_chans rfl : AllOKP N ((x1.inPartial.foldl Conn.noteClose (c1.setChan b.chIndex x1)).emit (.recv x1.inPartial))).of_chans (freeNodes_chans _ _)
           split
           · exact h3
           · rename_i x2 hx2
-            exact setChan_allOK _ _ _ h3 (getChan_ok _ _ x2 h3 hx2)
-    · have h1 : AllOK (c.setChan b.chIndex (if b.bReliable = true then { x with inReliable := b.chSeq } else x)) := setChan_allOK _ _ _ h hx'
-      exact ((noteClose_allOK _ b h1).of_chans rfl : AllOK (((c.setChan b.chIndex _).noteClose b).emit (.recv [b]))).of_chans rfl
+            exact setChan_allOKP _ _ _ h3 (getChan_okP _ _ x2 h3 hx2)
+    · have h1 : AllOKP N (c.setChan b.chIndex (if b.bReliable = true then { x with inReliable := b.chSeq } else x)) := setChan_allOKP _ _ _ h hx'
+      exact ((noteClose_allOKP _ b h1).of_chans rfl : AllOKP N (((c.setChan b.chIndex _).noteClose b).emit (.recv [b]))).of_chans rfl
 
-theorem dispatchWaiting_allOK (fuel : Nat) : ∀ (c : Conn) (ch : Nat), AllOK c → AllOK (Conn.dispatchWaiting fuel c ch) := by
+theorem dispatchWaiting_allOKP {N : OutNode → Prop} (fuel : Nat) : ∀ (c : Conn) (ch : Nat), AllOKP N c → AllOKP N (Conn.dispatchWaiting fuel c ch) := by
   induction fuel with
   | zero => intro c ch h; exact h
   | succ f ih =>
@@ -472,55 +482,55 @@ theorem dispatchWaiting_allOK (fuel : Nat) : ∀ (c : Conn) (ch : Nat), AllOK c 
       · split
         · exact h
         · dsimp only
-          exact ih _ _ (receivedNextBunch_allOK _ _ (setChan_allOK c ch _ h (getChan_ok c ch x h hx)))
+          exact ih _ _ (receivedNextBunch_allOKP _ _ (setChan_allOKP c ch _ h (getChan_okP c ch x h hx)))
 
-theorem createChan_allOK (c : Conn) (ch : Nat) (h : AllOK c) : AllOK (c.createChan ch) := by
+theorem createChan_allOKP {N : OutNode → Prop} (c : Conn) (ch : Nat) (h : AllOKP N c) : AllOKP N (c.createChan ch) := by
   unfold Conn.createChan
   dsimp only
-  refine setChan_allOK _ _ _ ?_ (by intro n hn; simp at hn)
+  refine setChan_allOKP _ _ _ ?_ (by intro n hn; simp at hn)
   split
   · exact h.of_chans rfl
   · split
     · exact h.of_chans rfl
     · exact h.of_chans rfl
 
-theorem getOrCreateChan_allOK (c : Conn) (b : Bunch) (inc : Bool) (h : AllOK c) :
-    AllOK (c.getOrCreateChan b inc).1 ∧ ∀ x, (c.getOrCreateChan b inc).2 = some x → ChanOK x := by
+theorem getOrCreateChan_allOKP {N : OutNode → Prop} (c : Conn) (b : Bunch) (inc : Bool) (h : AllOKP N c) :
+    AllOKP N (c.getOrCreateChan b inc).1 ∧ ∀ x, (c.getOrCreateChan b inc).2 = some x → ChanOKP N x := by
   unfold Conn.getOrCreateChan
   split
   · rename_i x hx
-    exact ⟨h, fun y hy => by simp at hy; rw [← hy]; exact getChan_ok c _ x h hx⟩
+    exact ⟨h, fun y hy => by simp at hy; rw [← hy]; exact getChan_okP c _ x h hx⟩
   · split
-    · have hc := createChan_allOK c b.chIndex h
-      exact ⟨hc, fun y hy => getChan_ok _ _ y hc hy⟩
+    · have hc := createChan_allOKP c b.chIndex h
+      exact ⟨hc, fun y hy => getChan_okP _ _ y hc hy⟩
     · exact ⟨h, fun y hy => by simp at hy⟩
 
-theorem processBunch_allOK (c : Conn) (x : Channel) (b : Bunch) (h : AllOK c) (hx : ChanOK x) : AllOK (c.processBunch x b).1 := by
+theorem processBunch_allOKP {N : OutNode → Prop} (c : Conn) (x : Channel) (b : Bunch) (h : AllOKP N c) (hx : ChanOKP N x) : AllOKP N (c.processBunch x b).1 := by
   unfold Conn.processBunch
   split
   · exact h.of_chans rfl
   · split
     · split
-      · exact setChan_allOK _ _ _ h hx
+      · exact setChan_allOKP _ _ _ h hx
       · exact h.of_chans rfl
-    · exact receivedNextBunch_allOK _ _ h
+    · exact receivedNextBunch_allOKP _ _ h
 
-theorem receivedRawBunch_allOK (c : Conn) (bits : Bits) (h : AllOK c) : AllOK (c.receivedRawBunch bits).1 := by
+theorem receivedRawBunch_allOKP {N : OutNode → Prop} (c : Conn) (bits : Bits) (h : AllOKP N c) : AllOKP N (c.receivedRawBunch bits).1 := by
   unfold Conn.receivedRawBunch
   dsimp only
-  have h0 : AllOK (c.emit (.alloc .node)) := h.of_chans rfl
+  have h0 : AllOKP N (c.emit (.alloc .node)) := h.of_chans rfl
   split
-  · exact (h0.of_chans (markClose_chans _ _) : AllOK ((c.emit (.alloc .node)).markClose crBunchOverflow)).of_chans rfl
+  · exact (h0.of_chans (markClose_chans _ _) : AllOKP N ((c.emit (.alloc .node)).markClose crBunchOverflow)).of_chans rfl
   · split
-    · exact (h0.of_chans (markClose_chans _ _) : AllOK ((c.emit (.alloc .node)).markClose crBunchBadChannelIndex)).of_chans rfl
+    · exact (h0.of_chans (markClose_chans _ _) : AllOKP N ((c.emit (.alloc .node)).markClose crBunchBadChannelIndex)).of_chans rfl
     · rename_i b rest hdec hch
-      obtain ⟨g1, g2⟩ := getOrCreateChan_allOK (c.emit (.alloc .node)) { b with packetId := (c.emit (.alloc .node)).inPacketId } true h0
+      obtain ⟨g1, g2⟩ := getOrCreateChan_allOKP (c.emit (.alloc .node)) { b with packetId := (c.emit (.alloc .node)).inPacketId } true h0
       split
       · exact g1.of_chans rfl
       · rename_i x hx
-        exact dispatchWaiting_allOK _ _ _ (processBunch_allOK _ _ _ g1 (g2 x hx))
+        exact dispatchWaiting_allOKP _ _ _ (processBunch_allOKP _ _ _ g1 (g2 x hx))
 
-theorem bunchLoop_allOK (fuel : Nat) : ∀ (c : Conn) (bits : Bits) (skip : Bool), AllOK c → AllOK (Conn.bunchLoop fuel c bits skip).1 := by
+theorem bunchLoop_allOKP {N : OutNode → Prop} (fuel : Nat) : ∀ (c : Conn) (bits : Bits) (skip : Bool), AllOKP N c → AllOKP N (Conn.bunchLoop fuel c bits skip).1 := by
   induction fuel with
   | zero => intro c bits skip h; exact h
   | succ f ih =>
@@ -528,7 +538,15 @@ theorem bunchLoop_allOK (fuel : Nat) : ∀ (c : Conn) (bits : Bits) (skip : Bool
     unfold Conn.bunchLoop
     split
     · exact h
-    · exact ih _ _ _ (receivedRawBunch_allOK c bits h)
+    · exact ih _ _ _ (receivedRawBunch_allOKP c bits h)
+
+/-! the size instance, under the names used above and below -/
+theorem markClosed_ok (x : Channel) (r : Nat) (h : ChanOK x) : ChanOK (x.markClosed r) := markClosed_okP x r h
+theorem noteClose_allOK (c : Conn) (b : Bunch) (h : AllOK c) : AllOK (c.noteClose b) := noteClose_allOKP c b h
+theorem getOrCreateChan_allOK (c : Conn) (b : Bunch) (inc : Bool) (h : AllOK c) :
+    AllOK (c.getOrCreateChan b inc).1 ∧ ∀ x, (c.getOrCreateChan b inc).2 = some x → ChanOK x := getOrCreateChan_allOKP c b inc h
+theorem bunchLoop_allOK (fuel : Nat) (c : Conn) (bits : Bits) (skip : Bool) (h : AllOK c) : AllOK (Conn.bunchLoop fuel c bits skip).1 :=
+  bunchLoop_allOKP fuel c bits skip h
 
 /-- the bunch loop emits no datagram, so `SizeOK` tolerates everything it logs -/
 theorem sizeOK_pred : RecvPred SizeOK :=
